@@ -20,7 +20,8 @@
 (***************************************************************************)
 EXTENDS TwigValues, Json
 
-CONSTANTS Cap, MaxLen, KeyWithoutType, FirstIndexOnly, NameSet
+CONSTANTS Cap, MaxLen, KeyWithoutType, FirstIndexOnly, NameSet,
+          ShapeSet     \* the shapes and map kinds the objects are taken from (focused configurations for longer histories)
 VARIABLES memo, hist
 
 tX == <<88>>  tY == <<89>>  tZ == <<90>>  tW == <<87>>
@@ -61,11 +62,11 @@ Shapes ==
 ShapeNames == {"S1", "S2", "S3", "S4", "S5", "S6", "S7", "S10", "S11", "S12", "S13", "S14"}
 MapKinds == {"any", "mss", "msi", "mii"}        \* mii: map[interface{}]interface{}
 \* objects: a struct value, a pointer to it, or a map of one of three Go map types
-Objects == {[k |-> "struct", sh |-> sn, ptr |-> p, embnil |-> FALSE] : sn \in ShapeNames, p \in BOOLEAN}
-           \cup {[k |-> "struct", sh |-> "S7", ptr |-> p, embnil |-> TRUE] : p \in BOOLEAN}
-           \cup {[k |-> "struct", sh |-> "S9", ptr |-> p, embnil |-> FALSE, alt |-> a] : p \in BOOLEAN, a \in BOOLEAN}
-           \cup {[k |-> "map", g |-> g] : g \in MapKinds}
-           \cup {[k |-> "map", g |-> g, ptr |-> TRUE] : g \in {"any", "mss"}}        \* a pointer to a map
+Objects == {[k |-> "struct", sh |-> sn, ptr |-> p, embnil |-> FALSE] : sn \in ShapeNames \cap ShapeSet, p \in BOOLEAN}
+           \cup {[k |-> "struct", sh |-> "S7", ptr |-> p, embnil |-> TRUE] : p \in (IF "S7" \in ShapeSet THEN BOOLEAN ELSE {})}
+           \cup {[k |-> "struct", sh |-> "S9", ptr |-> p, embnil |-> FALSE, alt |-> a] : p \in (IF "S9" \in ShapeSet THEN BOOLEAN ELSE {}), a \in BOOLEAN}
+           \cup {[k |-> "map", g |-> g] : g \in MapKinds \cap ShapeSet}
+           \cup {[k |-> "map", g |-> g, ptr |-> TRUE] : g \in {"any", "mss"} \cap ShapeSet}        \* a pointer to a map
 \* (the untyped map also has the keys "0" and "" -- never looked up themselves: an absent key must not fall back to them)
 MapVal(g, n) == CASE n = "X" -> (IF g = "mss" THEN VS(<<120>>) ELSE VI(8)) [] n = "Y" -> (IF g = "mss" THEN VS(<<121>>) ELSE VI(9))
                     [] n = "uelan" -> (IF g = "mss" THEN VS(<<117>>) ELSE VI(3)) [] OTHER -> Null
